@@ -91,7 +91,11 @@ func (g *ygen) scalar(forKey bool) *YN {
 		n.T = "int"
 		n.S = rapid.SampledFrom([]string{"0", "1", "-1", "42", "1000", "2147483648", "-9223372036854775808", "9223372036854775807", "7"}).Draw(t, "int")
 		if g.o.Hostile && rapid.IntRange(0, 3).Draw(t, "big") == 0 {
-			n.S = rapid.SampledFrom([]string{"9007199254740993", "-9007199254740993", "4611686018427387904"}).Draw(t, "bigint")
+			n.S = rapid.SampledFrom([]string{"9007199254740993", "-9007199254740993", "4611686018427387904", "9223372036854775808", "18446744073709551615"}).Draw(t, "bigint")
+			if rapid.IntRange(0, 4).Draw(t, "huge") == 0 {
+				// typed !!float by the YAML reader: the YAML leg of the open big-integer finding, kept rare
+				n.S = rapid.SampledFrom([]string{"-9223372036854775809", "123456789012345678901234567890"}).Draw(t, "hugeint")
+			}
 		}
 	case k == 2 && !forKey:
 		n.T = "float"
